@@ -160,6 +160,97 @@ def handle (line : String) : String :=
                 | _ => "(raise claim)")
            | _ => "(raise gamma)")
       | _, _, _, _ => "bad-request"
+    | "module", [md, .list (.atom "memo" :: memo)] =>
+      -- serialise a proof module: memo = (memo) for optimize=False, (memo yes p1 p2 ...) for optimize=True
+      match moduleOfSexp md with
+      | some md =>
+        let cfg? : Option PySt.Cfg := match memo with
+          | [] => some {}
+          | .atom "yes" :: ps => (ps.mapM npatOfSexp).map fun S => { memo := some S }
+          | _ => none
+        (match cfg? with
+         | none => "bad-request"
+         | some cfg =>
+           match PModule.executeFull cfg fuel md with
+           | none => "fuel"
+           | some none => "(raise)"
+           | some (some (_, calls)) =>
+             match PySt.trackAll fuel (PySt.init md.claimsOf) calls ([], [], []) with
+             | some (some (_, (g, c, p))) =>
+               if (encode g ++ encode c ++ encode p).any (· > 255) then "(raise)"
+               else s!"(ok {hexOfBytes (encode g)} {hexOfBytes (encode c)} {hexOfBytes (encode p)})"
+             | _ => "(raise)")
+      | none => "bad-request"
+    | "pf-conc", [.list (.atom "axioms" :: ax), pf] =>
+      match ax.mapM npatOfSexp, pfOfSexp pf with
+      | some ax, some pf =>
+        (match Pf.concF ax fuel pf with
+         | none => "fuel" | some none => "(raise)" | some (some c) => patToStr c.expand)
+      | _, _ => "bad-request"
+    | "pf-basic", [.list (.atom "axioms" :: ax), pf] =>
+      match ax.mapM npatOfSexp, pfOfSexp pf with
+      | some ax, some pf =>
+        (match Pf.runBasicF ax fuel pf with
+         | none => "fuel" | some none => "(raise)" | some (some c) => patToStr c.expand)
+      | _, _ => "bad-request"
+    | "journal", [.atom g, .atom c, .atom p] =>
+      -- the publish journal of the reference machine: axioms published in gamma, claims published, verdict
+      match bytesOfHex g, bytesOfHex c, bytesOfHex p with
+      | some g, some c, some p =>
+        match decode g, decode c, decode p with
+        | some gi, some ci, some pi =>
+          (match Diag.runWhy .gamma ⟨[], [], []⟩ gi 0 with
+           | .inr (k, w) => s!"(rej gamma {k} {w})"
+           | .inl s1 =>
+             match Diag.runWhy .claim { s1 with stack := [] } ci 0 with
+             | .inr (k, w) => s!"(rej claim {k} {w})"
+             | .inl s2 =>
+               let axs := (run .gamma ⟨[], [], []⟩ gi).map (·.2) |>.getD []
+               let cls := (run .claim { s1 with stack := [] } ci).map (·.2) |>.getD []
+               let verdict := match Diag.runWhy .proof { s2 with stack := [] } pi 0 with
+                 | .inr (k, w) => s!"(rej proof {k} {w})"
+                 | .inl s3 => if s3.claims.isEmpty then "(accepted)" else "(rej proof end claimsLeft)"
+               "(journal (axioms " ++ " ".intercalate (axs.map patToStr) ++ ") (claims " ++
+                 " ".intercalate (cls.map patToStr) ++ ") " ++ verdict ++ ")")
+        | _, _, _ => "(rej decode)"
+      | _, _, _ => "bad-request"
+    | "mmproof", [.list (.atom "floats" :: fl), .list (.atom "vars" :: vs), .atom hex] =>
+      let atoms (xs : List Sexp) : Option (List String) := xs.mapM fun x => match x with | .atom a => some a | _ => none
+      match atoms fl, atoms vs, bytesOfHex hex with
+      | some fl, some vs, some bs =>
+        let str := String.ofList (bs.map Char.ofNat)
+        let toks := (str.splitOn " ").filter (· ≠ "")
+        (match MM.importProof fl vs toks with
+         | none => "(raise)"
+         | some (labels, steps) =>
+           "(proof (labels " ++ " ".intercalate labels ++ ") (steps " ++ " ".intercalate (steps.map toString) ++ "))")
+      | _, _, _ => "bad-request"
+    | "taut-cf", [f] =>
+      match formOfSexp f with
+      | some f => cfToStr (CF.ofForm f)
+      | none => "bad-request"
+    | "taut-propag", [c] =>
+      match cfOfSexp c with
+      | some c => (match CF.propagNeg c with | some r => cfToStr r | none => "(raise)")
+      | none => "bad-request"
+    | "taut-cnf", [c] =>
+      match cfOfSexp c with
+      | some c => (match CF.toCnfF 100000 c with | some r => cfToStr r | none => "(raise)")
+      | none => "bad-request"
+    | "taut-clauses", [c] =>
+      match cfOfSexp c with
+      | some c => (match CF.toClauses c with | some r => clausesToStr r | none => "(raise)")
+      | none => "bad-request"
+    | "taut-resolve", [cs] =>
+      match clausesOfSexp cs with
+      | some cs => (match Res.start 10000000 cs with
+          | none => "fuel" | some none => "none" | some (some b) => toString b)
+      | none => "bad-request"
+    | "taut-prove", [f] =>
+      match formOfSexp f with
+      | some f => (match proveTautology 10000000 f with
+          | none => "(raise)" | some none => "none" | some (some b) => toString b)
+      | none => "bad-request"
     | "rule-mp", [a, b] =>
       match npatOfSexp a, npatOfSexp b with
       | some a, some b => (match NPat.pyMP fuel a b with
